@@ -309,7 +309,12 @@ func reifyStruct(opts *options, orig reflect.Value, cfg *Config) Error {
 
 			if fInfo.tagOptions.squash {
 				vField := chaseValue(fInfo.value)
-				switch vField.Kind() {
+				kind := vField.Kind()
+				if kind == reflect.Ptr {
+					// a nil pointer: it is allocated for what it points to
+					kind = chaseTypePointers(vField.Type()).Kind()
+				}
+				switch kind {
 				case reflect.Struct, reflect.Map:
 					if err := reifyInto(fInfo.options, fInfo.value, cfg); err != nil {
 						return err
